@@ -21,18 +21,19 @@ LEVEL_TEXT = (
     "(i) 1-3 tasks x up to 8 operations get/set/delete/clear/len/keys over 4 keys on RecentlyUsedContainer(maxsize 0-3) with a recording dispose callback and a simulated re-entrant "
     "lock, pre-empted at every line of _collections.py: each recorded history (invoke/return stamped with the global event number) must linearize against a sequential LRU model, "
     "dispose exactly once per evicted/replaced/deleted/cleared value and never under the lock. (ii) 2-3 tasks doing connection_from_url/request/clear on PoolManager(num_pools 1-2) "
-    "over the simulated network, some holding a streaming response across an eviction. Sampling of interleavings; histories kept short so the search is exact."
+    "over the simulated network, some holding a streaming response across an eviction. (iii) single caller, exhaustive: every operation sequence of length <= 4 (quick) / <= 5 (thorough) over the "
+    "15-operation alphabet and maxsize 0-3 is run against the model operation by operation. Sampling of interleavings; histories kept short so the search is exact."
 )
 LEVEL_NOTE = "trusted: the sequential LRU model and the linearizability search in this module; SimRLock semantics (= threading.RLock for acquire/release); line-granularity pre-emption"
 N = {"quick": 40000, "thorough": 600000}
 BUDGET = {"quick": 55, "thorough": 420}
 RESAMPLE = 15
 RULE = (
-    "index k -> k%4!=3: container history (tasks, ops, maxsize, schedule); k%4==3: PoolManager scenario. Non-trivial = a pre-emptive switch landed or >= 4 operations; distinct = distinct "
+    "index k < 900 additionally yields one exhaustive batch (maxsize, first two operations, all continuations up to the length bound). index k -> k%4!=3: container history (tasks, ops, maxsize, schedule); k%4==3: PoolManager scenario. Non-trivial = a pre-emptive switch landed or >= 4 operations; distinct = distinct "
     "(operation scripts, maxsize, sequence of (task, location) at context switches)."
 )
 ASSUMPTIONS = ["values are unique per set so every observed/disposed value is attributable to one write", "PoolManager in this tree evicts without a dispose callback: evicted pools close when garbage collected; the harness calls gc.collect() at scripted points"]
-REQUIRED_PROBES = {"quick": ["lru_concurrent", "lru_sequential", "evicted", "replaced", "cleared", "pm_evicted_inflight_ok", "pm_same_pool_identity", "pm_cleared", "preempted", "lock_contended"], "thorough": ["lru_concurrent", "lru_sequential", "evicted", "replaced", "cleared", "pm_evicted_inflight_ok", "pm_same_pool_identity", "pm_cleared", "preempted", "lock_contended"]}
+REQUIRED_PROBES = {"quick": ["lru_concurrent", "lru_sequential", "lru_enumerated_sequences", "evicted", "replaced", "cleared", "pm_evicted_inflight_ok", "pm_same_pool_identity", "pm_cleared", "preempted", "lock_contended"], "thorough": ["lru_concurrent", "lru_sequential", "lru_enumerated_sequences", "evicted", "replaced", "cleared", "pm_evicted_inflight_ok", "pm_same_pool_identity", "pm_cleared", "preempted", "lock_contended"]}
 
 KEYS = ["a", "b", "c", "d"]
 
@@ -103,9 +104,101 @@ def gen_pm(rng):
     return {"property": ID, "kind": "pm", "num_pools": rng.choice([1, 1, 2]), "tasks": tasks, "schedule": gen_schedule(rng)}
 
 
+# alphabet of the exhaustive single-caller stratum: 4 keys x (set, get, delete) + clear, len, keys = 15 operations
+ALPHA = [("set", k) for k in KEYS] + [("get", k) for k in KEYS] + [("delete", k) for k in KEYS] + [("clear", None), ("len", None), ("keys", None)]
+ENUM_LEN = {"quick": 4, "thorough": 5}
+
+
 def cases(seed, k, tier):
     rng = rng_for(seed, ID, k)
+    L = ENUM_LEN.get(tier, 4)
+    n_enum = len(ALPHA) ** 2 * 4
+    if k < n_enum:
+        # exhaustive stratum: every operation sequence of length <= L for this (maxsize, first two operations) -- the whole
+        # index range [0, 900) together is every sequence of length <= L over 4 keys for maxsize 0..3
+        yield {"property": ID, "kind": "lru_enum", "maxsize": k % 4, "prefix": [k // 4 // len(ALPHA), k // 4 % len(ALPHA)], "length": L}
     yield gen_pm(rng) if k % 4 == 3 else gen_lru(rng)
+
+
+def _seq_ops(idx_seq):
+    ops = []
+    for j, i in enumerate(idx_seq):
+        kind, key = ALPHA[i]
+        o = {"op": kind}
+        if key is not None:
+            o["key"] = key
+        if kind == "set":
+            o["value"] = f"v{j + 1}"
+        ops.append(o)
+    return ops
+
+
+def _apply_real(c, op):
+    k = op.get("key")
+    kind = op["op"]
+    try:
+        if kind == "get":
+            return ("val", c[k])
+        if kind == "set":
+            c[k] = op["value"]
+            return ("none",)
+        if kind == "delete":
+            del c[k]
+            return ("none",)
+        if kind == "clear":
+            c.clear()
+            return ("none",)
+        if kind == "len":
+            return ("val", len(c))
+        return ("val", tuple(sorted(c.keys())))
+    except KeyError:
+        return ("KeyError",)
+
+
+def run_lru_enum(sc) -> Result:
+    """Single caller, no scheduler: the real container against the sequential model, operation by operation, for every
+    sequence that starts with the scenario's two operations and has length <= sc['length']."""
+    import itertools
+
+    from urllib3._collections import RecentlyUsedContainer
+
+    res = Result()
+    m = sc["maxsize"]
+    n = 0
+    first_bad = None
+    explicit = sc.get("sequences")
+    if explicit is not None:
+        seqs = iter(explicit)
+    else:
+        tails = (t for L in range(0, sc["length"] - 1) for t in itertools.product(range(len(ALPHA)), repeat=L))
+        seqs = (list(sc["prefix"]) + list(t) for t in tails)
+    for idx_seq in seqs:
+        n += 1
+        disposed = []
+        c = RecentlyUsedContainer(m, dispose_func=disposed.append)
+        model = Model(m)
+        for pos, op in enumerate(_seq_ops(idx_seq)):
+            before = len(disposed)
+            got = _apply_real(c, op)
+            want, wd = model.apply(op)
+            gd = disposed[before:]
+            if got != want or sorted(gd) != sorted(wd) or len(c) > max(m, 0):
+                first_bad = (list(idx_seq), pos, got, want, gd, wd)
+                break
+        if first_bad:
+            break
+    res.probes["lru_enumerated_sequences"] += n
+    res.probes["lru_enum_batches"] += 1
+    if first_bad:
+        idx_seq, pos, got, want, gd, wd = first_bad
+        ops = _seq_ops(idx_seq)
+        res.info["failing_sequence"] = idx_seq
+        res.bad("not_linearizable", f"single caller, maxsize {m}: after {[(o['op'], o.get('key')) for o in ops[:pos]]} the operation {(ops[pos]['op'], ops[pos].get('key'))} returned {got} disposing {gd}; the LRU model says {want} disposing {wd}")
+    res.digest = stable_hash((sc["maxsize"], sc.get("prefix"), sc.get("length"), n, first_bad))
+    res.trace = hash(("enum", sc["maxsize"], tuple(sc.get("prefix") or ()), sc.get("length")))
+    res.nontrivial = True
+    res.steps = n
+    return res
 
 
 # ----------------------------------------------------------------------------- sequential model + linearizability
@@ -188,6 +281,8 @@ def linearizable(history, maxsize):
 
 
 def run(sc: dict) -> Result:
+    if sc["kind"] == "lru_enum":
+        return run_lru_enum(sc)
     return run_pm(sc) if sc["kind"] == "pm" else run_lru(sc)
 
 
@@ -447,6 +542,22 @@ def run_pm(sc) -> Result:
 
 
 def shrinks(sc):
+    if sc["kind"] == "lru_enum":
+        # reduce the batch to the one failing sequence, then drop operations from it
+        if sc.get("sequences") is None:
+            r = run(sc)
+            if r.info.get("failing_sequence") is not None:
+                c = copy.deepcopy(sc)
+                c["sequences"] = [r.info["failing_sequence"]]
+                yield c
+        else:
+            seq = sc["sequences"][0]
+            for i in range(len(seq)):
+                c = copy.deepcopy(sc)
+                c["sequences"] = [seq[:i] + seq[i + 1 :]]
+                if c["sequences"][0]:
+                    yield c
+        return
     sch = sc["schedule"]
     if "decisions" not in sch:
         r = run(sc)
